@@ -205,3 +205,157 @@ Qed.
 Theorem vsplit_sum : forall res Lmax L, 0 < res -> 0 < Lmax ->
   qn (nsplit Lmax res) * (L / qn (nsplit Lmax res)) == L.
 Proof. intros. apply div_mul_cancel, qn_pos, nsplit_pos; assumption. Qed.
+
+(** ---------- tracking through the pieces, over R: the pieces' maps multiply to the whole map.
+    Drift and Quadrupole maps are those of Optics/Maps.v (transcribed from the code). *)
+From Coq Require Import Reals Lra.
+From Cheetah Require Import Base.Mat Optics.Maps.
+Local Close Scope Q_scope.
+Local Open Scope R_scope.
+
+Ltac mcbv' := cbv [m7nth v7nth row mmul mvec transpose col v7map dot c0 c1 c2 c3 c4 c5 c6 rI I7 e0 e1 e2 e3 e4 e5 e6].
+Ltac meq' := apply v7_eq; cbv [c0 c1 c2 c3 c4 c5 c6]; apply v7_eq; cbv [c0 c1 c2 c3 c4 c5 c6].
+
+(* the map of n identical pieces tracked one after the other *)
+Fixpoint mpow (A : M7 R) (n : nat) : M7 R := match n with O => rI | S k => rmmul (mpow A k) A end.
+
+Lemma track_repeat A n v : fold_left (fun v M => rmvec M v) (repeat A n) v = rmvec (mpow A n) v.
+Proof.
+  revert v. induction n as [|n IH]; intros v; cbn [repeat fold_left mpow].
+  - symmetry. apply (mvec_I RRth).
+  - rewrite IH. symmetry. apply (mvec_mmul RRth).
+Qed.
+
+Lemma mpow_conj X Y A n : rmmul X Y = rI -> rmmul Y X = rI ->
+  mpow (rmmul X (rmmul A Y)) n = rmmul X (rmmul (mpow A n) Y).
+Proof.
+  intros HXY HYX. induction n as [|n IH]; cbn [mpow].
+  - rewrite (mmul_I_l RRth). symmetry. exact HXY.
+  - rewrite IH. rewrite !(mmul_assoc RRth). f_equal. f_equal.
+    rewrite <- (mmul_assoc RRth Y X). rewrite HYX. rewrite (mmul_I_l RRth). reflexivity.
+Qed.
+
+(** Drift *)
+Lemma drift_add a b E : rmmul (drift_map b E) (drift_map a E) = drift_map (a + b) E.
+Proof. unfold drift_map, drift_r56. mcbv'. meq'; unfold Rdiv; ring. Qed.
+
+Lemma drift_pow a E n : mpow (drift_map a E) n = drift_map (INR n * a) E.
+Proof.
+  induction n as [|n IH]; cbn [mpow].
+  - unfold drift_map, drift_r56. cbn [INR]. mcbv'. meq'; unfold Rdiv; ring.
+  - rewrite IH, drift_add. f_equal. rewrite S_INR. ring.
+Qed.
+
+Theorem drift_split_track : forall L E n, n <> O -> mpow (drift_map (L / INR n) E) n = drift_map L E.
+Proof.
+  intros L E n Hn. rewrite drift_pow. f_equal. field. apply not_0_INR, Hn.
+Qed.
+
+(** Quadrupole: addition theorems of the C/S functions of base_rmatrix *)
+Lemma cosh_plus x y : cosh (x + y) = cosh x * cosh y + sinh x * sinh y.
+Proof.
+  unfold cosh, sinh. replace (- (x + y)) with (- x + - y) by ring. rewrite !exp_plus. field.
+Qed.
+Lemma sinh_plus x y : sinh (x + y) = sinh x * cosh y + cosh x * sinh y.
+Proof.
+  unfold cosh, sinh. replace (- (x + y)) with (- x + - y) by ring. rewrite !exp_plus. field.
+Qed.
+
+Lemma Cf_add k a b : Cf k (a + b) = Cf k a * Cf k b - k * (Sf k a * Sf k b).
+Proof.
+  unfold Cf, Sf. destruct (Rlt_dec 0 k) as [Hp|Hnp]; [|destruct (Rlt_dec k 0) as [Hn|Hnn]].
+  - assert (Hs : k = sqrt k * sqrt k) by (symmetry; apply sqrt_sqrt; lra).
+    set (s := sqrt k) in *. assert (Hs0 : s <> 0) by (intros H0; rewrite H0 in Hs; lra).
+    replace (s * (a + b)) with (s * a + s * b) by ring. rewrite cos_plus. rewrite Hs. field. exact Hs0.
+  - assert (Hs : k = - (sqrt (- k) * sqrt (- k))) by (rewrite sqrt_sqrt; lra).
+    set (s := sqrt (- k)) in *. assert (Hs0 : s <> 0) by (intros H0; rewrite H0 in Hs; lra).
+    replace (s * (a + b)) with (s * a + s * b) by ring. rewrite cosh_plus. rewrite Hs. field. exact Hs0.
+  - assert (k = 0) by lra. subst k. ring.
+Qed.
+
+Lemma Sf_add k a b : Sf k (a + b) = Sf k a * Cf k b + Cf k a * Sf k b.
+Proof.
+  unfold Cf, Sf. destruct (Rlt_dec 0 k) as [Hp|Hnp]; [|destruct (Rlt_dec k 0) as [Hn|Hnn]].
+  - assert (Hs : k = sqrt k * sqrt k) by (symmetry; apply sqrt_sqrt; lra).
+    set (s := sqrt k) in *. assert (Hs0 : s <> 0) by (intros H0; rewrite H0 in Hs; lra).
+    replace (s * (a + b)) with (s * a + s * b) by ring. rewrite sin_plus. field. exact Hs0.
+  - assert (Hs : k = - (sqrt (- k) * sqrt (- k))) by (rewrite sqrt_sqrt; lra).
+    set (s := sqrt (- k)) in *. assert (Hs0 : s <> 0) by (intros H0; rewrite H0 in Hs; lra).
+    replace (s * (a + b)) with (s * a + s * b) by ring. rewrite sinh_plus. field. exact Hs0.
+  - ring.
+Qed.
+
+(* the untilted, centred quadrupole body (base_rmatrix with hx = 0) is a one-parameter semigroup in the length *)
+Lemma quad_body_add a b k1 E :
+  rmmul (base_untilted b k1 0 E) (base_untilted a k1 0 E) = base_untilted (a + b) k1 0 E.
+Proof.
+  unfold base_untilted, cx, sx, cy, sy, dx, r56.
+  rewrite (Cf_add (kx2 k1 0) a b), (Sf_add (kx2 k1 0) a b), (Cf_add (ky2 k1) a b), (Sf_add (ky2 k1) a b).
+  unfold Rsqr. mcbv'. meq'; unfold Rdiv; ring.
+Qed.
+
+Lemma quad_body_pow a k1 E n : mpow (base_untilted a k1 0 E) n = base_untilted (INR n * a) k1 0 E.
+Proof.
+  induction n as [|n IH]; cbn [mpow].
+  - cbn [INR]. rewrite Rmult_0_l. unfold base_untilted, cx, sx, cy, sy, dx, r56, Cf, Sf.
+    destruct (Rlt_dec 0 (kx2 k1 0)), (Rlt_dec (kx2 k1 0) 0), (Rlt_dec 0 (ky2 k1)), (Rlt_dec (ky2 k1) 0);
+      rewrite ?Rmult_0_r, ?cos_0, ?sin_0, ?cosh_0, ?sinh_0; unfold Rsqr, Rdiv; mcbv'; meq'; ring.
+  - rewrite IH, quad_body_add. f_equal. rewrite S_INR. ring.
+Qed.
+
+(* tilt and misalignment are conjugations by mutually inverse matrices, in every branch of the code *)
+Lemma rot_inv_l t : rmmul (rot (- t)) (rot t) = rI.
+Proof.
+  unfold rot. rewrite cos_neg, sin_neg. pose proof (sin2_cos2 t) as H. unfold Rsqr in H.
+  mcbv'. meq'; try ring; ring_simplify; nra.
+Qed.
+Lemma rot_inv_r t : rmmul (rot t) (rot (- t)) = rI.
+Proof. pose proof (rot_inv_l (- t)) as H. rewrite Ropp_involutive in H. exact H. Qed.
+Lemma mis_inv_l mx my : rmmul (mis_exit mx my) (mis_entry mx my) = rI.
+Proof. unfold mis_exit, mis_entry, shift. mcbv'. meq'; unfold Rdiv; ring. Qed.
+Lemma mis_inv_r mx my : rmmul (mis_entry mx my) (mis_exit mx my) = rI.
+Proof. unfold mis_exit, mis_entry, shift. mcbv'. meq'; unfold Rdiv; ring. Qed.
+
+Lemma base_rmatrix_conj L k1 hx t E :
+  base_rmatrix L k1 hx t E = rmmul (rot (- t)) (rmmul (base_untilted L k1 hx E) (rot t)).
+Proof.
+  unfold base_rmatrix. destruct (Req_EM_T t 0) as [->|]; [|reflexivity].
+  rewrite Ropp_0. assert (H0 : rot 0 = rI) by (unfold rot; rewrite cos_0, sin_0, Ropp_0; reflexivity).
+  rewrite H0, (mmul_I_r RRth), (mmul_I_l RRth). reflexivity.
+Qed.
+
+Lemma misaligned_conj mx my Rm :
+  misaligned mx my Rm = rmmul (mis_exit mx my) (rmmul Rm (mis_entry mx my)).
+Proof.
+  unfold misaligned. destruct (Req_EM_T mx 0) as [->|]; [|reflexivity].
+  destruct (Req_EM_T my 0) as [->|]; [|reflexivity].
+  unfold mis_exit, mis_entry. rewrite Ropp_0.
+  assert (H0 : shift 0 0 = rI) by reflexivity.
+  rewrite H0, (mmul_I_r RRth), (mmul_I_l RRth). reflexivity.
+Qed.
+
+(** Quadrupole (cheetah tracking method), with tilt and misalignment: tracking through the n
+    pieces Quadrupole(L/n, k1, misalignment, tilt) in turn is the map of the whole quadrupole *)
+Theorem quad_split_track : forall L k1 mx my tilt E n, n <> O ->
+  mpow (quad_map (L / INR n) k1 mx my tilt E) n = quad_map L k1 mx my tilt E.
+Proof.
+  intros L k1 mx my tilt E n Hn. unfold quad_map.
+  rewrite !misaligned_conj, !base_rmatrix_conj.
+  rewrite (mpow_conj _ _ _ n (mis_inv_l mx my) (mis_inv_r mx my)).
+  rewrite (mpow_conj _ _ _ n (rot_inv_l tilt) (rot_inv_r tilt)).
+  rewrite quad_body_pow. replace (INR n * (L / INR n)) with L by (field; apply not_0_INR, Hn). reflexivity.
+Qed.
+
+(* and therefore for every particle *)
+Corollary quad_split_track_particle : forall L k1 mx my tilt E n v, n <> O ->
+  fold_left (fun v M => rmvec M v) (repeat (quad_map (L / INR n) k1 mx my tilt E) n) v
+  = rmvec (quad_map L k1 mx my tilt E) v.
+Proof. intros. rewrite track_repeat, quad_split_track by assumption. reflexivity. Qed.
+
+Corollary drift_split_track_particle : forall L E n v, n <> O ->
+  fold_left (fun v M => rmvec M v) (repeat (drift_map (L / INR n) E) n) v = rmvec (drift_map L E) v.
+Proof. intros. rewrite track_repeat, drift_split_track by assumption. reflexivity. Qed.
+
+(** correctors: the pieces do NOT multiply to the whole map (each piece is a drift followed by its
+    share of the kick, so the kick is distributed along the length: two pieces give an extra
+    x-offset a*L/4); the property only asks for the total angle, see [corrector_split_angle]. *)
